@@ -205,6 +205,24 @@ func (p *Program) checkLoop(fn *ssa.Function, l *Loop, ps *progressSets) LoopVer
 				}
 			case *ssa.Next:
 				mark(b, "range iteration (map/string)", x)
+			case *ssa.Select:
+				// a blocking select all of whose cases wait for a clock (Timer.C, Ticker.C,
+				// time.After, time.Tick): the cycle sleeps until the clock fires
+				if x.Blocking && len(x.States) > 0 {
+					all := true
+					for _, st := range x.States {
+						if st.Dir != types.RecvOnly || !isClockChannel(st.Chan) {
+							all = false
+						}
+					}
+					if all {
+						mark(b, "timed wait (select on timer/ticker channels)", x)
+					}
+				}
+			case *ssa.UnOp:
+				if x.Op == token.ARROW && isClockChannel(x.X) {
+					mark(b, "timed wait (receive from a timer/ticker channel)", x)
+				}
 			}
 		}
 	}
@@ -690,4 +708,19 @@ func (p *Program) paramMayCarryClientInt(par *ssa.Parameter) bool {
 		}
 	}
 	return n == 0
+}
+
+// isClockChannel: the C field of a *time.Timer / *time.Ticker, or the result of time.After/Tick.
+func isClockChannel(v ssa.Value) bool {
+	v = strip(v)
+	if ld, ok := v.(*ssa.UnOp); ok && ld.Op == token.MUL {
+		if fa, ok := ld.X.(*ssa.FieldAddr); ok {
+			t := typeName(deref(fa.X.Type()))
+			return (t == "time.Timer" || t == "time.Ticker") && derefStruct(fa.X.Type()).Field(fa.Field).Name() == "C"
+		}
+	}
+	if call, ok := v.(*ssa.Call); ok {
+		return nameIn(calleeName(call.Common()), "time.After", "time.Tick")
+	}
+	return false
 }
